@@ -101,7 +101,7 @@ def safe_parse_labelled(schema):
         return ("crash", type(exc).__name__, f"{statham_frame(exc)}: {str(exc)[:200]}")
 
 
-def verdict(element, value, check_input=True):
+def verdict(element, value, check_input=True, keep_warnings=False):
     """Call ``element(value)`` on a deep copy of value.
 
     -> ('ok', result) | ('reject', 'ValidationError'|'TypeError') |
@@ -109,9 +109,12 @@ def verdict(element, value, check_input=True):
     """
     arg = copy.deepcopy(value)
     try:
-        with warnings.catch_warnings():
-            warnings.simplefilter("ignore")
-            result = element(arg)
+        if keep_warnings:
+            result = element(arg)  # the caller records them
+        else:
+            with warnings.catch_warnings():
+                warnings.simplefilter("ignore")
+                result = element(arg)
     except ValidationError:
         out = ("reject", "ValidationError")
     except TypeError as exc:
@@ -181,6 +184,20 @@ def plain_eq(a, b):
     if isinstance(a, dict) and isinstance(b, dict):
         return set(a) == set(b) and all(plain_eq(a[k], b[k]) for k in a)
     return json_eq(a, b)
+
+
+def plain_identical(a, b):
+    """plain_eq, but numbers must have the same Python type too (5 is not 5.0): for two results that ought to be built
+    in exactly the same way."""
+    from vlib.jsonvals import json_identical
+
+    if a == NP or b == NP:
+        return isinstance(a, str) and isinstance(b, str) and a == b
+    if isinstance(a, list) and isinstance(b, list):
+        return len(a) == len(b) and all(plain_identical(x, y) for x, y in zip(a, b))
+    if isinstance(a, dict) and isinstance(b, dict):
+        return set(a) == set(b) and all(plain_identical(a[k], b[k]) for k in a)
+    return json_identical(a, b)
 
 
 def kind(v):
